@@ -31,7 +31,7 @@ try:
     # demo scripts written by the seeding agents may hard-code their own worktree path
     txt = open(os.path.join(wt, "demo_seed.py")).read()
     import re
-    txt = re.sub(r"/tmp/wt3?/C\d\d", wt, txt)
+    txt = re.sub(r"/tmp/wt\d?/C\d\d", wt, txt)
     open(os.path.join(wt, "demo_seed.py"), "w").write(txt)
     r0 = run([PY, "demo_seed.py"], cwd=wt, env=env)
     meta["demo_exit_without_patch"] = r0.returncode
